@@ -60,16 +60,16 @@ Section TB.
     let '(s1, x) := step s o in
     let r := refill s (time_of o) in
     tb_last s1 = tb_last r /\
-    ((admit o x = 1%Z /\ tb_tokens s1 == tb_tokens r - 1 /\ 1 <= tb_tokens r) \/
-     (admit o x = 0%Z /\ tb_tokens s1 = tb_tokens r /\ (match o with Acq _ => tb_tokens r < 1 | _ => True end))).
+    ((granted o x = 1%Z /\ tb_tokens s1 == tb_tokens r - 1 /\ 1 <= tb_tokens r) \/
+     (granted o x = 0%Z /\ tb_tokens s1 = tb_tokens r /\ (match o with Acq _ => tb_tokens r < 1 | _ => True end))).
   Proof.
-    destruct o as [t|t]; cbn [tb_step time_of admit].
+    destruct o as [t|t]; cbn [tb_step time_of granted].
     - unfold tb_acquire. qsimp. qcase 1 (tb_tokens (refill s t)); cbn [tb_last tb_tokens b2z]; split; auto.
       left. repeat split; auto.
     - unfold tb_tua. qsimp. qcase 1 (tb_tokens (refill s t)); cbn; split; auto.
   Qed.
 
-  Notation count := (run_count admit step).
+  Notation count := (run_count granted step).
 
   (** From a state refilled at [l], over operations at non-decreasing times >= l:
       granted + remaining tokens <= initial tokens + rate * elapsed. *)
@@ -198,7 +198,7 @@ Section TB.
 
   Lemma blocked_step s D o : blocked s D ->
     (match tb_last s with Some l => (l <= time_of o)%Z | None => True end) -> (time_of o < D)%Z ->
-    admit o (snd (step s o)) = 0%Z /\ blocked (fst (step s o)) D /\ tb_last (fst (step s o)) = Some (time_of o).
+    granted o (snd (step s o)) = 0%Z /\ blocked (fst (step s o)) D /\ tb_last (fst (step s o)) = Some (time_of o).
   Proof.
     intros (l & Hl & HlD & H0 & Hb) Hlo HD. rewrite Hl in Hlo.
     pose proof (step_facts s o) as SF. destruct (step s o) as [s1 x]. cbn [fst snd].
@@ -373,7 +373,7 @@ End TB.
 Example tb_example :
   let p := Build_tbp Qops 2 1 in
   0 < tb_rate p /\ 1 <= tb_cap p /\
-  snd (run_count admit (tb_step Qops p) (Build_tbs Qops 2 None)
+  snd (run_count granted (tb_step Qops p) (Build_tbs Qops 2 None)
          [Acq 0; Acq 0; Acq 0; Tua 0; Acq 1000000000]) = 3%Z /\
   snd (tb_tua Qops p (Build_tbs Qops 0 (Some 0%Z)) 0) = 1000000000%Z.
 Proof. vm_compute. repeat split; congruence. Qed.
